@@ -14,7 +14,8 @@ def parseDecl (s : String) : Option Decl :=
   | some 'E' => some (.exp n)
   | some 'F' => some (.fwd n)
   | some 'D' => some (.func n)
-  | some 'V' => some (.data n)
+  | some 'V' | some 'W' | some 'X' | some 'B' | some 'A' | some 'Q' | some 'T' | some 'Z'
+  | some 'Y' => some (.data n)   -- every non-function item kind, single or section head
   | some 'C' => some (.imp n .call)
   | some 'P' => some (.imp n .ptr)
   | some 'R' => some (.imp n .ref)
